@@ -300,7 +300,10 @@ func (s *SendStream) popNewOrRetransmittedStreamFrame(maxBytes protocol.ByteCoun
 	if f.DataLen() == maxDataLen && s.flowController.IsNewlyBlocked() {
 		blocked = &wire.StreamDataBlockedFrame{StreamID: s.streamID, MaximumStreamData: s.writeOffset}
 	}
-	f.Fin = s.finishedWriting && s.dataForWriting == nil && s.nextFrame == nil && !s.finSent
+	// After CancelWrite the stream ends with RESET_STREAM_AT. A FIN on the last *reliable* frame would
+	// tell the reader that the stream ended cleanly at the reliable size although more was written
+	// (Close followed by CancelWrite with a reliable boundary below the bytes written).
+	f.Fin = s.finishedWriting && s.dataForWriting == nil && s.nextFrame == nil && !s.finSent && s.resetErr == nil
 	if f.Fin {
 		s.finSent = true
 	}
